@@ -40,6 +40,9 @@ pub enum ConnState {
     Alive,
     /// its Connection future was dropped; the broker has not noticed yet
     Zombie,
+    /// half-open transport: whatever the broker's connection task writes towards the client
+    /// fails, while the client can still send; nobody has noticed yet
+    Mute,
     Gone,
 }
 
@@ -143,6 +146,11 @@ pub enum Input {
     BrokerShutdown,
     /// a new connection with this negotiated minor version joins
     Connect(u32),
+    /// from now on every write of the broker's connection task towards this client fails
+    WriteFault(usize),
+    /// everything injected in one go has been dequeued: connection tasks that failed on a write
+    /// in the meantime have reported that
+    EndOfBurst,
 }
 
 #[derive(Debug, Clone)]
@@ -189,8 +197,15 @@ pub struct Model {
     choices: Vec<usize>,
     choice_pos: usize,
     choice_arity: Vec<usize>,
-    /// zombies to which this step attempted a delivery
+    /// zombies to which this step may have attempted a delivery (credit announcements, whose
+    /// timing is the broker's policy, and optional deliveries)
     touched_zombies: BTreeSet<usize>,
+    /// zombies to which this step definitely attempted a delivery whose failure the broker acts on
+    must_notice: BTreeSet<usize>,
+    /// mute connections to which something was (resp. may have been) delivered since the last
+    /// end of burst: their connection task fails on the write and reports its end
+    mute_must: BTreeSet<usize>,
+    mute_maybe: BTreeSet<usize>,
     /// connections whose deliveries cannot be observed in the current burst (they terminate
     /// themselves while it runs); set by the rig
     pub unobservable: BTreeSet<usize>,
@@ -288,6 +303,9 @@ impl Model {
             choice_pos: 0,
             choice_arity: Vec::new(),
             touched_zombies: BTreeSet::new(),
+            must_notice: BTreeSet::new(),
+            mute_must: BTreeSet::new(),
+            mute_maybe: BTreeSet::new(),
             unobservable: BTreeSet::new(),
         }
     }
@@ -318,16 +336,34 @@ impl Model {
             m.choices = choices;
             m.choice_pos = 0;
             m.touched_zombies.clear();
+            m.must_notice.clear();
             let mut out = StepOut::default();
             m.apply(input, &mut out);
-            // lazy detection of dropped connection tasks
+            // detection of dropped connection tasks: a failed delivery that the broker checks
+            // removes the connection once the current message has been handled; a delivery that
+            // may or may not have been attempted (credit announcement) may or may not do so
             loop {
-                let pending: Vec<usize> = m.touched_zombies.iter().copied().filter(|&z| m.conns[z].state == ConnState::Zombie).collect();
+                let must: Vec<usize> = m.must_notice.iter().copied().filter(|&z| m.conns[z].state == ConnState::Zombie).collect();
+                let maybe: Vec<usize> = m.touched_zombies.iter().copied().filter(|&z| m.conns[z].state == ConnState::Zombie && !must.contains(&z)).collect();
                 m.touched_zombies.clear();
-                if pending.is_empty() {
+                m.must_notice.clear();
+                if must.is_empty() && maybe.is_empty() {
+                    // at the end of a burst the two kinds of late notice feed each other
+                    let pending = m.mute_must.iter().chain(m.mute_maybe.iter()).any(|&z| m.conns[z].state == ConnState::Mute);
+                    if matches!(input, Input::EndOfBurst) && pending {
+                        m.apply(input, &mut out);
+                        continue;
+                    }
                     break;
                 }
-                for z in pending {
+                for z in must {
+                    if m.conns[z].state == ConnState::Zombie {
+                        out.notes.push(format!("dropped connection {} noticed", z));
+                        Self::clause(&mut out, "delivery to a dropped connection task fails: that connection is removed");
+                        m.disconnect(z, &mut out);
+                    }
+                }
+                for z in maybe {
                     if m.conns[z].state == ConnState::Zombie && m.choose(2) == 1 {
                         out.notes.push(format!("dropped connection {} noticed", z));
                         m.disconnect(z, &mut out);
@@ -377,7 +413,21 @@ impl Model {
         match self.conns[conn].state {
             ConnState::Alive => out.exp.push(Exp { conn, alts, optional }),
             ConnState::Zombie => {
-                self.touched_zombies.insert(conn);
+                // the broker does not look at the outcome of these four deliveries
+                let ignored = alts.iter().all(|m| matches!(m, Message::Shutdown(_) | Message::SubscribeEvent(_) | Message::SubscribeAllEvents(_) | Message::UnsubscribeAllEvents(_)));
+                if ignored {
+                } else if optional {
+                    self.touched_zombies.insert(conn);
+                } else {
+                    self.must_notice.insert(conn);
+                }
+            }
+            ConnState::Mute => {
+                if optional {
+                    self.mute_maybe.insert(conn);
+                } else {
+                    self.mute_must.insert(conn);
+                }
             }
             ConnState::Gone => {}
         }
@@ -456,8 +506,38 @@ impl Model {
                 }
             }
             Input::DropFuture(c) => {
-                if self.conns[*c].state == ConnState::Alive {
+                if matches!(self.conns[*c].state, ConnState::Alive | ConnState::Mute) {
                     self.conns[*c].state = ConnState::Zombie;
+                }
+            }
+            Input::WriteFault(c) => {
+                if self.conns[*c].state == ConnState::Alive {
+                    self.conns[*c].state = ConnState::Mute;
+                }
+            }
+            Input::EndOfBurst => {
+                // cascades: the teardown of one connection may write to another mute one
+                loop {
+                    let must: Vec<usize> = self.mute_must.iter().copied().filter(|&z| self.conns[z].state == ConnState::Mute).collect();
+                    let maybe: Vec<usize> = self.mute_maybe.iter().copied().filter(|&z| self.conns[z].state == ConnState::Mute && !must.contains(&z)).collect();
+                    self.mute_must.clear();
+                    self.mute_maybe.clear();
+                    if must.is_empty() && maybe.is_empty() {
+                        break;
+                    }
+                    for z in must {
+                        if self.conns[z].state == ConnState::Mute {
+                            Self::clause(out, "write towards a client fails: its connection task ends and the broker cleans up");
+                            out.notes.push(format!("mute connection {} reported its write failure", z));
+                            self.disconnect(z, out);
+                        }
+                    }
+                    for z in maybe {
+                        if self.conns[z].state == ConnState::Mute && self.choose(2) == 1 {
+                            out.notes.push(format!("mute connection {} reported its write failure", z));
+                            self.disconnect(z, out);
+                        }
+                    }
                 }
             }
             Input::BrokerShutdown => {
@@ -1054,6 +1134,7 @@ impl Model {
                         // a credit announcement to the sender may follow
                         self.touched_zombies.insert(owner);
                     }
+
                     self.unobserved_announcement(m.cookie.0);
                 }
             }
@@ -1082,6 +1163,7 @@ impl Model {
             if self.conns[s].state == ConnState::Zombie {
                 self.touched_zombies.insert(s);
             }
+
         }
         self.unobserved_announcement(m.cookie.0);
     }
@@ -1091,10 +1173,15 @@ impl Model {
     fn unobserved_announcement(&mut self, cookie: Uuid) {
         let Some(ch) = self.chans.get(&cookie) else { return };
         let (EndSt::Claimed { owner, credit }, EndSt::Claimed { credit: rcap, .. }) = (ch.sender.clone(), ch.receiver.clone()) else { return };
-        if self.unobservable.contains(&owner) && self.conns[owner].state == ConnState::Alive && rcap > credit && self.choose(2) == 1 {
+        let mute = self.conns[owner].state == ConnState::Mute;
+        if (mute || (self.unobservable.contains(&owner) && self.conns[owner].state == ConnState::Alive)) && rcap > credit && self.choose(2) == 1 {
             let ch = self.chans.get_mut(&cookie).unwrap();
             ch.sender = EndSt::Claimed { owner, credit: rcap };
             ch.announced += rcap - credit;
+            if mute {
+                // the announcement was handed to a connection task that cannot write it
+                self.mute_must.insert(owner);
+            }
         }
     }
 
@@ -1295,6 +1382,11 @@ impl Model {
                 self.send(out, owner, UnsubscribeEvent { service_cookie: sc, event: ev });
             }
             if all_emptied {
+                // unlike the handler of an explicit UnsubscribeAllEvents, the teardown path acts
+                // on a failed delivery
+                if self.conns[owner].state == ConnState::Zombie {
+                    self.must_notice.insert(owner);
+                }
                 self.send(out, owner, UnsubscribeAllEvents { serial: None, service_cookie: sc });
             }
         }
